@@ -283,7 +283,9 @@ def evaluate(ctx, res, exe, np, setting, lines, tag, dist, shrink=True, stuck=45
         key = 'crash:' + hashlib.md5('\n'.join(lines).encode()).hexdigest()[:10]
         mpierr = ' '.join(sorted(set(re.findall(r'MPI_ERR_\w+: [^\n]*', r['err']) + re.findall(r'[^\n]*Assertion[^\n]*', r['err']) + re.findall(r'Signal: [^\n]*', r['err']))))[:600]
         what = 'mpiexec -n %d exited with %d before every rank finished the script: %s %s' % (np, r['rc'], mpierr, re.sub(r'\[[\w.-]+:\d+\][^\n]*\n', '', r['err'])[-400:])
-        if mixes_put_get(lines) and ('MPI_ERR_TRUNCATE' in r['err'] or 'truncated' in r['err']):
+        if mixes_put_get(lines):
+            # the only scripts that mix put and get on one ordered pair are the F1 reproducers: the mismatched pair of messages
+            # shows up as MPI_ERR_TRUNCATE, or (rget protocol) as a write past the receive buffer and a later abort
             key = 'F1:put-get-tag-collision'
         res.violations.append({'key': key, 'what': what, 'case': case})
         return False
